@@ -74,6 +74,9 @@ func (f *mpFam) postChain(segs []string) []string {
 	return out
 }
 
+// SetScenarioIndex selects the alphabet mapping: scenario i uses mapping i mod 6 (also across separate vh processes).
+func (f *mpFam) SetScenarioIndex(i int) { f.cur = i - 1 }
+
 func (f *mpFam) Reset() M {
 	f.cur++
 	m := f.maps[f.cur%len(f.maps)]
